@@ -32,7 +32,7 @@ def electrical_mobility_from_D(D, charge, T, constants=None, units=None):
         kB = 1.38064852e-23
         e = 1.60217662e-19
         if units is not None:
-            kB *= units.joule / units.kelvin / units.mol
+            kB *= units.joule / units.kelvin
             e *= units.coulomb
     else:
         kB = constants.Boltzmann_constant
